@@ -1,5 +1,6 @@
 import SqlObjVerif.Lemmas.GraphTrav
 import SqlObjVerif.Lemmas.GraphXMain
+import SqlObjVerif.Lemmas.GraphXDeps
 /-!
 # C12 — destroySelf honours the declared cascade policy over the whole reference graph
 
@@ -325,6 +326,12 @@ theorem C12_translated_dependent_step (S : Schema) (lz : Nat → Bool) (rec : DB
 theorem C12_translated_findDependantColumns_eq_model (S : Schema) (c k : Nat) :
     fdcX S c k = .ret ⟨⟨[], [], []⟩, []⟩ (PyDestroy.Val.ofList ((depCols S c k).map fun f => .obj (.col k f))) :=
   fdcX_eq S c k
+
+/-- the translated `findDependencies(<name of c>, registry)` — what `self._SO_depends()` is — returns the model's
+    `dependents S c`, in registry order, and changes nothing -/
+theorem C12_translated_findDependencies_eq_model (S : Schema) (c : Nat) :
+    fdepsX S c = .ret ⟨⟨[], [], []⟩, []⟩ (PyDestroy.Val.ofList ((dependents S c).map fun k => .obj (.cls k))) :=
+  fdepsX_eq S c
 
 /-- the closure postcondition, stated of the translated code: if the translated `destroySelf` (recursion through the model)
     returns normally, the database it leaves is the old one minus the cascade closure of the victim -/
